@@ -90,8 +90,10 @@ fn build_program(seed: u64) -> Vec<(usize, u8)> {
   // (copied to 0xC1A0): LD A,b1 ; LD (0x2100),A ; CALL 0x4040 ; LD A,b2 ; LD (0x2100),A ; CALL 0x4040 ; RET
   let (rb1, rb2) = (1 + rng.below(8) as u8, 1 + rng.below(8) as u8);
   a.at(0x3080); a.b(&[0x3e, rb1, 0xea, 0x00, 0x21, 0xcd, 0x40, 0x40, 0x3e, rb2, 0xea, 0x00, 0x21, 0xcd, 0x40, 0x40, 0xc9]);
-  // a long straight-line stretch (more than 256 guest bytes in one block): INC B x 300 ; RET
-  a.at(0x3100); for _ in 0..300 { a.b(&[0x04]); } a.b(&[0xc9]);
+  // a long straight-line stretch in ONE block: INC B x 300 / 1030 / 2100 ; RET (block length must not depend on the engine:
+  // an interrupt gets in at block ends only)
+  let long_n = *rng.pick(&[300usize, 1030, 2100]);
+  a.at(0x3100); for _ in 0..long_n { a.b(&[0x04]); } a.b(&[0xc9]);
   // main program
   a.at(0x0150);
   a.b(&[0xf3, 0x31, 0xff, 0xdf, 0x21, 0x00, 0xc0]);          // DI ; LD SP,0xDFFF ; LD HL,0xC000
